@@ -247,5 +247,53 @@ pub fn gen(out: &mut Out, _sub: &str) {
             }
             push(out, json!({"ev": "isect", "dom": "dd", "kind": "isect", "x": dd(&x), "y": dd(&y), "cls": dd_isect_cls(&x, &y)}));
         }
+        // asymmetric shapes, each pair in BOTH receiver/argument orders: absolute-only against
+        // pointer-carrying / mixed / Top-flagged values (a relative target or a Top member can denote
+        // any absolute value, so the other side's absolute members stay feasible)
+        for _ in 0..out.size(60, 600) {
+            let sx = *rng.pick(&SHAPES);
+            let sy = *rng.pick(&SHAPES);
+            // at least one side absolute-only or with an absolute part in two thirds of the cases
+            let sx = if rng.chance(1, 3) { (true, 0, false) } else { sx };
+            let x = shaped_data(&mut rng, w, sx, None);
+            let y = shaped_data(&mut rng, w, sy, Some(&x));
+            for (a, b) in [(&x, &y), (&y, &x)] {
+                push(out, json!({"ev": "isect", "dom": "dd", "kind": "isect", "x": dd(a), "y": dd(b), "cls": dd_isect_cls(a, b)}));
+            }
+        }
     }
+}
+
+/// (has absolute part, number of relative targets, Top flag)
+type Shape = (bool, usize, bool);
+const SHAPES: [Shape; 9] = [
+    (true, 0, false), (true, 0, true), (false, 1, false), (false, 2, false), (false, 1, true),
+    (true, 1, false), (true, 2, false), (true, 1, true), (false, 0, true),
+];
+
+/// A data domain value of the given shape; with `near`, its parts overlap the corresponding parts of `near`
+/// (same identifiers first, intersecting intervals) in half of the cases.
+fn shaped_data(rng: &mut Rng, w: u64, shape: Shape, near: Option<&Data>) -> Data {
+    let (has_abs, n_rel, top) = shape;
+    let mut d = Data::new_empty(ByteSize::new(w));
+    if has_abs {
+        let a = match near.and_then(|n| n.get_absolute_value()) {
+            Some(a) if rng.chance(1, 2) => isect_partner(rng, &RawIv::of(a), w),
+            _ => rand_raw(rng, w, HINT_PCT),
+        };
+        d.set_absolute_value(Some(a.build()));
+    }
+    let mut names: Vec<&str> = IDS.to_vec();
+    if near.is_none() || rng.chance(1, 2) { rng.shuffle(&mut names); }
+    let mut rel = std::collections::BTreeMap::new();
+    for name in names.into_iter().take(n_rel) {
+        let off = match near.and_then(|n| n.get_relative_values().get(&id(name))) {
+            Some(o) if rng.chance(1, 2) => isect_partner(rng, &RawIv::of(o), w),
+            _ => rand_raw(rng, w, HINT_PCT),
+        };
+        rel.insert(id(name), off.build());
+    }
+    d.set_relative_values(rel);
+    if top { d.set_contains_top_flag(); }
+    d
 }
